@@ -60,12 +60,19 @@ class Universe:
         all of whose call sites (by name, anywhere in the repository) lie in
         construction-time functions is construction-time itself."""
         idx = {}
+        partial_args = set()
         for f in self.repo.all_functions():
             for c in model.calls_in(f.node, shallow=True):
                 nm = c.func.attr if isinstance(c.func, ast.Attribute) else (
                     c.func.id if isinstance(c.func, ast.Name) else None)
                 if nm:
                     idx.setdefault(nm, []).append(f)
+                # functools.partial(helper, ...): the helper runs whenever
+                # the partial does, i.e. it belongs to whoever built it
+                if model.norm(c.func) in ('functools.partial', 'partial') \
+                        and c.args and isinstance(c.args[0], ast.Name):
+                    idx.setdefault(c.args[0].id, []).append(f)
+                    partial_args.add(id(c.args[0]))
         # calls made while a module is imported (module level, class
         # bodies, decorators and defaults of top-level functions)
         IMPORT = object()
@@ -84,6 +91,8 @@ class Universe:
             for n in model.walk_shallow(f.node):
                 if isinstance(n, ast.Name) and isinstance(n.ctx, ast.Load):
                     par = getattr(n, '_parent', None)
+                    if id(n) in partial_args:
+                        continue
                     if not (isinstance(par, ast.Call) and par.func is n):
                         loaded.setdefault(n.id, 0)
                         loaded[n.id] += 1
